@@ -8,7 +8,8 @@
 From Coq Require Import List Arith PeanoNat Lia.
 Import ListNotations.
 Require Import Verif.Base.Res Verif.gen.UFSeq Verif.UF.Seq Verif.Egg.Model Verif.Egg.RepFacts
-  Verif.Cont.Env Verif.Cont.Facts Verif.Cont.Pass Verif.Cont.Fix.
+  Verif.Cont.Env Verif.Cont.Facts Verif.Cont.Pass Verif.Cont.Fix
+  Verif.gen.BridgeFns Verif.gen.ContFacts Verif.Cont.Gen Verif.Cont.Refresh.
 
 (** In every reachable state (any interleaving of fresh e-classes, hash-consing insertions,
     unions of e-classes, rebuilds to fixpoint with ANY choice of strategy per pass):
@@ -127,6 +128,145 @@ Theorem c14_s3_branch_dead : forall oracle f entries e todo chg,
      (chg || existsb (chf f) entries)%bool).
 Proof. exact scan_full_L. Qed.
 Print Assumptions c14_s3_branch_dead.
+
+(** TIER A. The hand model IS the code's decision logic: [insert_owned], both passes and the dirty-id
+    closure of Cont/Env.v are equal, for all inputs, to the functions Cont/Gen.v assembles from
+    gen/ContFacts.v — regenerated on every run from core-relations/src/containers/mod.rs
+    (insert_owned arms as effect lists with their guard and merge arguments, the conditions of
+    reinsert_incremental, the arms of the non-incremental scan and its reinsertion loop, the queue
+    of the incremental scan, rebuild_all + expand_dirty_id_closure's loop) and from
+    egglog-bridge/src/lib.rs (the merge closure of register_container_ty). A change of the
+    surviving id (min -> max), of the staged union, a dropped to_container / val_index update in the
+    collision arm, a changed dirty test or a one-level closure changes the right-hand sides only. *)
+Theorem c14_model_is_regenerated : forall oracle,
+  (forall e c v, insert_owned e c v = insert_owned_g e c v)
+  /\ (forall f e, pass_full oracle f e = pass_full_g oracle f e)
+  /\ (forall f d e, pass_inc oracle f d e = pass_inc_g oracle f d e)
+  /\ (forall e dirty, dirty_closure e dirty = dirty_closure_g e dirty).
+Proof.
+  intros oracle. split; [intros; symmetry; apply insert_owned_g_eq|].
+  split; [intros; symmetry; apply pass_full_g_eq|].
+  split; [intros; symmetry; apply pass_inc_g_eq|].
+  intros; symmetry; apply dirty_closure_g_eq.
+Qed.
+Print Assumptions c14_model_is_regenerated.
+
+(** the regenerated merge closure keeps the least id and stages the union of the two ids exactly
+    when they differ (the facts behind the collision branch: red-team patches rt_c14 / rt2_c14) *)
+Theorem c14_merge_keeps_min : forall old new,
+  cont_merge old new = Nat.min old new
+  /\ cont_merge_staged old new = (if old =? new then [] else [(old, new)]).
+Proof.
+  intros old new. unfold cont_merge, cont_merge_staged.
+  destruct (Nat.eqb_spec old new); simpl; split; try reflexivity. subst. symmetry. apply Nat.min_id.
+Qed.
+Print Assumptions c14_merge_keeps_min.
+
+(** the rebuild loop over the REGENERATED passes, with a strategy that may inspect the state (in
+    particular [real_strategy]: the translated threshold call of ContainerEnv::apply_rebuild over the
+    translated [incremental_rebuild]), started in a reachable state: terminates, and at the fixpoint
+    every stored id is canonical, containers equal after canonicalisation are one container, every
+    container id is a root and nothing is pending. *)
+Theorem c14_regenerated_loop_canonical : forall oracle s strat dacc, Reach oracle s ->
+  exists s' d, rebuild_loop_g oracle (rebuild_fuel s) strat s dacc = Ok (s', d)
+    /\ (forall c v x, In (c, v) (to_id (cenv s')) -> In x (rids c) -> rep (cuf s') x = x)
+    /\ (forall c1 v1 c2 v2, In (c1, v1) (to_id (cenv s')) -> In (c2, v2) (to_id (cenv s')) ->
+          rebuild_contents oracle (rep (cuf s')) c1 = rebuild_contents oracle (rep (cuf s')) c2 -> v1 = v2)
+    /\ (forall c v, In (c, v) (to_id (cenv s')) -> rep (cuf s') v = v)
+    /\ pending s' = [].
+Proof.
+  intros oracle s strat dacc R.
+  destruct (rebuild_loop_g_eq oracle (rebuild_fuel s) strat s dacc) as (st & E).
+  destruct (c14_rebuild_terminates oracle s st dacc R) as (s' & d & E').
+  exists s', d. rewrite E. split; [exact E'|].
+  destruct (c14_rebuild_canonical oracle s st dacc s' d R E') as (A & B & C & D & _).
+  auto.
+Qed.
+Print Assumptions c14_regenerated_loop_canonical.
+
+(** both strategies are taken by the translated threshold: 2 displaced ids against 16 containers
+    -> incremental (serial: 2 <= 16/8), against 8 containers -> full; no hint column -> full *)
+Example c14_real_strategy_both :
+  let mk n := mkCS [] (mkEnv (map (fun i => (CVec [i], i)) (seq 0 n)) [] []) [0; 1] in
+  real_strategy (fun _ => false) true 0 (mk 16) = true
+  /\ real_strategy (fun _ => false) true 0 (mk 8) = false
+  /\ real_strategy (fun _ => false) false 0 (mk 16) = false
+  /\ real_strategy (fun _ => true) true 0 (mk 16) = false.
+Proof. vm_compute. auto. Qed.
+
+(** apply_rebuild_nonincremental_parallel takes the same decisions as the serial variant (scan arms,
+    collision arm effects / guard / merge arguments, vacant arm, dirty tests) *)
+Theorem c14_parallel_same_decisions :
+  (forall ch nv ov, par_skip ch nv ov = nonincr_skip ch nv ov
+                    /\ par_requeue ch nv ov = nonincr_requeue ch nv ov
+                    /\ par_taken_locator ch nv ov = nonincr_taken_locator ch nv ov
+                    /\ par_queued_id ch nv ov = nonincr_queued_id ch nv ov
+                    /\ par_queued_stable ch nv ov = nonincr_queued_stable ch nv ov)
+  /\ par_rekey_touches_val_index = nonincr_rekey_touches_val_index
+  /\ par_merge_args = io_merge_args /\ par_occ_guard_ne = io_occ_guard_ne
+  /\ par_occ_changed_ops = io_occ_changed_ops /\ par_vac_ops = io_vac_ops
+  /\ (forall st actual val, par_occ_dirty st actual val = nonincr_dirty st actual val
+                            /\ par_occ_dirty_id st actual val = nonincr_dirty_id st actual val)
+  /\ (forall st val, par_vac_dirty st val val = nonincr_dirty st val val
+                     /\ par_vac_dirty_id st val val = nonincr_dirty_id st val val).
+Proof. exact par_same_decisions. Qed.
+Print Assumptions c14_parallel_same_decisions.
+
+(** TABLE REFRESH (the C03 obligation for containers). One pass of the native rebuild loop of
+    egglog-bridge from a reachable container state, over any table contents: containers are rebuilt
+    first (either strategy), the tables are rebuilt against the union-find that holds the unions
+    the container pass staged, then the rows mentioning a dirty id are refreshed with the same
+    [next_ts], then the timestamp advances. Afterwards every row is the old row with every column
+    canonicalised (so every container id a row mentions is canonical); every row whose columns
+    changed carries [next_ts]; and every row mentioning a container whose MEANING changed while
+    its id stayed — its contents changed in place, or, at ANY nesting depth, it contains such a
+    container — carries [next_ts] too, so semi-naive sees it in the next iteration. *)
+Theorem c14_refresh_restamps : forall oracle b st st' again, Reach oracle (bcs st) ->
+  bridge_pass_model oracle b st = Ok (st', again) ->
+  let p' := cuf (bcs st') in
+  bts st' = S (bts st)
+  /\ length (brows st') = length (brows st)
+  /\ forall i r r', nth_error (brows st) i = Some r -> nth_error (brows st') i = Some r' ->
+       rcols r' = map (rep p') (rcols r)
+       /\ (forall x, In x (rcols r') -> rep p' x = x)
+       /\ (rcols r' <> rcols r -> rts r' = bts st)
+       /\ (forall x, In x (rcols r') -> deep_changed (cenv (bcs st)) (cenv (bcs st')) x ->
+             rts r' = bts st).
+Proof.
+  intros oracle b st st' again R E. exact (refresh_restamps oracle b st st' again (Reach_Good _ _ R) E).
+Qed.
+Print Assumptions c14_refresh_restamps.
+
+(** the order of the steps of one pass as regenerated from EGraph::rebuild (containers before
+    tables before the refresh, one [next_ts] for both, [inc_ts] last) is the order
+    [bridge_pass_model] implements, and the loop stops exactly when nothing changed *)
+Example c14_bridge_pass_order :
+  bridge_pass = [BContainers; BNextTs; BTables; BDirtyOfContainers; BRefresh; BIncTs]
+  /\ (forall t r c, bridge_break t r c = negb t && negb r && negb c)
+  /\ refresh_ts_col = SetNextTs /\ refresh_other_cols = KeepCol
+  /\ refresh_candidates_from_dirty_index = true /\ refresh_in_row_order = true.
+Proof. repeat split. Qed.
+
+(** non-vacuity, nesting depth 2: ids 0,1 elements (1 displaced by 0), 2 = (vec-of 1),
+    3 = (vec-of 2). The inner vector is rebuilt in place, the outer one is untouched; the row
+    mentioning only the OUTER id is re-stamped (5), the row mentioning 1 is re-keyed and stamped,
+    the row mentioning 0 keeps its stamp — under both strategies. *)
+Example c14_refresh_example :
+  let st := mkB (mkCS [0; 0; 2; 3]
+                   (mkEnv [(CVec [2], 3); (CVec [1], 2)] [(3, CVec [2]); (2, CVec [1])] [(1, [2]); (2, [3])]) [1])
+                [mkRow [3] 0; mkRow [1] 0; mkRow [0] 0] 5 in
+  forall b, exists st', bridge_pass_model lww b st = Ok (st', true)
+    /\ brows st' = [mkRow [3] 5; mkRow [0] 5; mkRow [0] 0]
+    /\ deep_changed (cenv (bcs st)) (cenv (bcs st')) 3.
+Proof.
+  cbv zeta. intros b.
+  assert (D : forall e', In (CVec [0], 2) (to_id e') -> In (CVec [2], 3) (to_id e') ->
+    deep_changed (mkEnv [(CVec [2], 3); (CVec [1], 2)] [(3, CVec [2]); (2, CVec [1])] [(1, [2]); (2, [3])]) e' 3).
+  { intros e' H2 H3. eapply dc_in with (w := 2) (d := CVec [2]); [|exact H3|simpl; auto].
+    eapply dc_here with (c := CVec [1]) (c' := CVec [0]); [simpl; auto|exact H2|discriminate]. }
+  destruct b; eexists; (split; [vm_compute; reflexivity|]); (split; [reflexivity|]);
+    apply D; simpl; auto.
+Qed.
 
 (** ... and the arm WOULD break the index: run against a rebuilder that displaces a live container
     id whose contents are unchanged, the pass leaves a live container that val_index does not
